@@ -1,0 +1,18 @@
+//go:build verif
+
+package stub
+
+// Contracts for the executable stub space (property C20), checked by /verif/bin/govc.
+
+//@ pure func holder_wf() bool = placeHolderIns != nil && placeHolderIns.min <= placeHolderIns.off && placeHolderIns.max < 0x8000000000000000 && errSpaceOverflow != nil
+
+//@ func acquireFromHolder
+//@   props C20
+//@   requires len_bound: 0 <= len && len < 0x100000000
+//@   requires wf: holder_wf()
+//@   assigns placeHolderIns.off, ticket_lo, ticket_hi
+//@   ensures owned_region: result2 == nil ==> result0 == ticket_lo && result0 + uintptr(len) == ticket_hi
+//@   ensures inside_reserve: result2 == nil ==> placeHolderIns.min <= result0 && result0 + uintptr(len) <= placeHolderIns.max
+//@   ensures window: result2 == nil ==> result1 != nil && *result1 == mkslice(textref, result0, len, len)
+//@   ensures counter_monotone: placeHolderIns.off >= old(placeHolderIns.off)
+//@   ensures wf_kept: holder_wf()
